@@ -24,7 +24,9 @@ try:
         demo_dir = meta.get("demo_dir", "slog")
         rc, o = run("/verif/run_baseline.sh " + W, "/verif")
         ok_suite = rc == 0 and "passed=155" in o
-        dst = os.path.join(W, demo_dir, "zz_seed_demo_test.go")
+        # the file keeps the name the sub-agent gave it (some demos compare the caller's file name with their own)
+        idx = name.rsplit("-", 1)[-1]
+        dst = os.path.join(W, demo_dir, f"demo{idx}_test.go")
         shutil.copy(d + "/demo_test.go.txt", dst)
         names = re.findall(r"^func (Test\w+)\(", open(dst).read(), re.M)
         pat = "^(" + "|".join(names) + ")$"
